@@ -238,7 +238,10 @@ impl PerVisibleAlphabetConstraints {
 }
 
 fn find_string_index(value: &str, char_set: &BTreeMap<usize, char>) -> Result<usize, GrammarError> {
-    let as_char = value.chars().next().unwrap();
+    let as_char = value.chars().next().ok_or(GrammarError::new(
+        "An empty string cannot be a bound of a character range",
+        GrammarErrorType::UnpackingError,
+    ))?;
     find_char_index(char_set, as_char)
 }
 
